@@ -849,10 +849,19 @@ pub fn gen_document(t: &mut Tape, schema: &mut Schema, cfg: &GenCfg) -> Document
             if t.chance(cfg.recursion_percent) && !matches!(sel.as_slice(), [Selection::Spread(_)]) {
                 let mut keys = BTreeSet::new();
                 top_keys(&sel, &g.frags, &mut keys, &mut vec![]);
+                let mut key_scope = Scope::with_reserved(&["on"]);
+                for k in &keys {
+                    key_scope.insert(k);
+                }
+                for s in &sel {
+                    if let Selection::Spread(n) = s {
+                        key_scope.insert(n);
+                    }
+                }
                 let cands: Vec<&FieldDef> = schema_ro.objects[oi]
                     .fields
                     .iter()
-                    .filter(|f| f.ty.named == on && f.ty.can_terminate() && !keys.contains(&f.name))
+                    .filter(|f| f.ty.named == on && f.ty.can_terminate() && !keys.contains(&f.name) && key_scope.is_free(&f.name))
                     .collect();
                 if !cands.is_empty() {
                     let f = *t.pick(&cands);
